@@ -1,7 +1,7 @@
 (* Property C08 -- "Numeric field text conversions are exact inverses".
    Only theorem statements: each is closed by [exact] of a lemma proved in C08/NumIntProofs.v or
    C08/NumFloatProofs.v and followed by Print Assumptions.
-   Models: itoa_int / itoa_uint / fast_atoi (NumInt.v; fast_atoi as repaired by /repo commit a8219b1), modp_dtoa / fast_atof (NumFloat.v);
+   Models: itoa_int / itoa_uint / fast_atoi (NumInt.v; fast_atoi as of /repo commits a8219b1 + 1965750), modp_dtoa / fast_atof (NumFloat.v);
    specification: canon_dec, c08_int_ok, c08_atoi_ok, c08_float_ok ... (Spec_C08.v). *)
 From Coq Require Import ZArith List Bool Reals.
 From Flocq Require Import IEEE754.BinarySingleNaN.
@@ -31,12 +31,12 @@ Theorem c08_canon_dec_denotes : forall v, Z.abs v < 10 ^ 25 -> canon_value (cano
 Proof. exact canon_dec_denotes_lemma. Qed.
 Print Assumptions c08_canon_dec_denotes.
 
-(* THE INTEGER HALF OF THE PROPERTY, at full strength (fast_atoi as repaired by a8219b1):
-   every int32 v -- INT_MIN and INT_MAX included -- is rendered by itoa<int> as its canonical
-   decimal text and fast_atoi<int> parses that text back to v WITHOUT any undefined operation
-   (AR_ok: in the overflow-checked model every retval * 10 and every +/- ( *str - '0' ) stays inside
-   int: non-negative numbers are accumulated upwards, negative ones downwards so that INT_MIN
-   parses); the property's oracle accepts the round trip. *)
+(* THE INTEGER HALF OF THE PROPERTY, at full strength (fast_atoi as of 1965750: leading '-' honoured
+   for signed T, value accumulated in the unsigned type and negated at the end): every int32 v --
+   INT_MIN and INT_MAX included -- is rendered by itoa<int> as its canonical decimal text and
+   fast_atoi<int> parses that text back to v; the property's oracle accepts the round trip.  (No
+   "no overflow" side condition is left: the routine has no undefined operation on any text, see
+   c08_atoi_total.) *)
 Theorem c08_atoi_itoa : forall v, -2147483648 <= v < 2147483648 ->
   int_roundtrip v = Some (canon_dec v, AR_ok v) /\
   c08_int_strict_ok v (canon_dec v) (Some v) = true.
@@ -50,8 +50,8 @@ Print Assumptions c08_atoi_utoa.
 
 (* Parser clause on ARBITRARY text, for the three instantiations used by fix8 (Field<int>; tags,
    lengths, sequence numbers): whenever the text is the canonical decimal of a value of the type,
-   that value is returned -- for int without undefined operation.  (Nothing is claimed for other
-   texts: there is still no digit test.) *)
+   that value is returned.  (For other texts only totality is claimed, c08_atoi_total: there is
+   still no digit test.) *)
 Theorem c08_atoi_any_text : forall text,
   c08_atoi_ok (-2147483648) 2147483647 text (ar_opt (fast_atoi T_int 0 text)) = true /\
   c08_atoi_ok 0 4294967295 text (ar_opt (fast_atoi T_uint 0 text)) = true /\
@@ -59,7 +59,16 @@ Theorem c08_atoi_any_text : forall text,
 Proof. exact atoi_any_text_lemma. Qed.
 Print Assumptions c08_atoi_any_text.
 
-(* The routine as it was BEFORE the repair violated the property (witnesses; the repaired routine
+(* fast_atoi is TOTAL and free of undefined operations on EVERY text (digits or not, any length):
+   the unsigned accumulator wraps mod 2^32 / 2^16 and the result is a value of the target type. *)
+Theorem c08_atoi_total : forall text,
+  (exists v, fast_atoi T_int 0 text = AR_ok v /\ -2147483648 <= v <= 2147483647) /\
+  (exists v, fast_atoi T_uint 0 text = AR_ok v /\ 0 <= v <= 4294967295) /\
+  (exists v, fast_atoi T_ushort 0 text = AR_ok v /\ 0 <= v <= 65535).
+Proof. exact atoi_total_lemma. Qed.
+Print Assumptions c08_atoi_total.
+
+(* The routine as it was BEFORE the repairs (a8219b1^) violated the property (witnesses; the repaired routine
    is right on the same inputs): no sign handling, "-5" -> -25 and a shift of a negative value ... *)
 Theorem c08_atoi_neg_orig_refuted :
   itoa_int (-5) 10 = Some [45; 53] /\ fast_atoi_orig [45; 53] = -25 /\
